@@ -510,6 +510,41 @@ def unit_compare_cross(unit):
 
 
 
+def unit_compare_table(unit):
+    """a comparison between a vector and a table is the comparison of the vector with each column, in the WRITTEN operand order:
+    v < T is [v < c for c in columns], T < v is [c < v ...]; also scalar-with-table in both orders"""
+    from serif import Vector, Table
+    agg = Agg()
+    colsets = [[[1, 5, 3], [4, 2, 6]], [[1, 2, 3]], [[None, 2, 3], [3, None, 1]], [["a", "c", "b"], ["b", "b", "b"]], [[0.5, 2.5, 1.5], [1, 2, 3]]]
+    for cols in colsets:
+        t = Table([Vector(list(c), name=f"c{i}") for i, c in enumerate(cols)])
+        kind = type(next(x for x in cols[0] if x is not None))
+        others = [("vector", [cols[0][1]] * 3), ("vector", list(cols[-1])[::-1]), ("scalar", cols[0][1])]
+        for ok_, other in others:
+            for opn, op in CMP.items():
+                for order in ("other-first", "table-first"):
+                    if order == "table-first" and ok_ == "vector":
+                        continue        # T op v takes one element of v per COLUMN in this library; the statement does not say, not judged
+                    agg.evals += 1; agg.transitions += 1; agg.states += 1; agg.nontrivial += 1
+                    ys = other if ok_ == "vector" else [other] * 3
+                    want = [expected_cmp(op, ys, c) if order == "other-first" else expected_cmp(op, c, ys) for c in cols]
+                    case = {"table_columns": cols, "other": other, "op": opn, "order": order}
+                    o = Vector(list(other)) if ok_ == "vector" else other
+                    try:
+                        res = op(o, t) if order == "other-first" else op(t, o)
+                        got = [list(c._underlying) for c in res._underlying]
+                    except Exception as e:
+                        agg.violation(V(f"compare.{opn}.table", "raises-" + type(e).__name__, case, want, repr(e)[:80]))
+                        continue
+                    agg.compared += 1
+                    if got != want:
+                        swapped = [expected_cmp(op, c, ys) if order == "other-first" else expected_cmp(op, ys, c) for c in cols]
+                        agg.violation(V(f"compare.{opn}.table", "operands-in-wrong-order" if got == swapped else "wrong-values", case, want, got))
+                    else:
+                        agg.outcomes["cmp-ok"] += 1
+    return agg
+
+
 def _python_raises(op, xs, ys):
     try:
         for x, y in zip(xs, ys):
@@ -828,6 +863,30 @@ def unit_table(unit):
             agg.violation(V("table.getitem.introw", "row-taken-earlier-shows-another-row", d, want, got))
         else:
             agg.outcomes["held-rows-ok"] += 1
+    # ---- rows reached by ITERATION, each sliced / masked / index-selected while the iteration goes on (and after other rows were used)
+    if nrows and names:
+        W = len(names)
+        agg.evals += 1; agg.transitions += 4 * nrows; agg.compared += 4 * nrows
+        bad = None
+        try:
+            for i, row in enumerate(t):
+                wantrow = [vals[i] for _, vals in model]
+                got = {"slice": list(row[0:W]._underlying), "rev": list(row[::-1]._underlying), "mask": list(row[[True] * W]._underlying),
+                       "index": list(row[[W - 1, 0]]._underlying), "iter": list(row)}
+                want = {"slice": wantrow, "rev": wantrow[::-1], "mask": wantrow, "index": [wantrow[W - 1], wantrow[0]], "iter": wantrow}
+                for k_ in got:
+                    if not same_list(got[k_], want[k_]):
+                        bad = (i, k_, want[k_], got[k_])
+                        break
+                if bad:
+                    break
+        except Exception as e:
+            bad = ("raises", type(e).__name__, None, repr(e)[:80])
+        if bad:
+            agg.violation(V("table.iteration.row-selection", "iterated-row-selection-shows-another-row" if bad[0] != "raises" else "raises-" + bad[1],
+                            dict(d, row=bad[0], form=bad[1]), bad[2], bad[3]))
+        else:
+            agg.outcomes["iterated-rows-ok"] += 1
     # ---- histories: rename a column through a live view (and swap two names), then select by name
     if nrows and len(names) >= 1:
         scenarios = [("rename-first", {0: "renamed"})]
@@ -886,6 +945,7 @@ def check(ctx):
     parts += core.pmap(unit_vector_long, [("veclong", k) for k in ("int", "str", "float", "int?")])
     parts += core.pmap(unit_compare, [("cmp", k, L) for k in CMP_ALPHA])
     parts += core.pmap(unit_compare_cross, [("cmpx", i, L) for i in range(len(CROSS))])
+    parts += core.pmap(unit_compare_table, [("cmpt",)])
     tunits = [("tab", names, r) for names in NAME_SETS for r in range(0, R + 1)]
     parts += core.pmap(unit_table, tunits)
     agg = core.merge_all(parts)
